@@ -190,4 +190,51 @@ structure PT.Inv (s : PT) : Prop where
   noOpen : s.closedFlag = true → s.openConns = 0
   noLate : s.lateInserts = 0
 
+/-! ## Part E: reading one length-prefixed frame
+
+The reader arms a deadline and calls the frame reader, which blocks twice: for
+the 2-byte length header and for the body. Which deadline calls the frame
+reader itself makes in between is a regenerated fact (`mid`). -/
+
+inductive FAct where
+  | clearDl   -- SetReadDeadline(time.Time{}) / SetDeadline(time.Time{})
+  | setDl     -- any deadline call with a time
+  | other
+  deriving DecidableEq, Repr
+
+def FAct.ofCode : Nat → FAct
+  | 0 => .clearDl | 1 => .setDl | _ => .other
+
+structure FRead where
+  dl : Dl                    -- read deadline in force on the socket
+  phase : Nat := 0           -- 0 blocked for the header, 1 between header and body, 2 blocked for the body, 3 frame complete, 4 failed
+  rest : List FAct := []     -- phase 1: what is left to do before the body is read
+  deriving DecidableEq, Repr
+
+inductive FLabel where
+  | header   -- the length header arrives
+  | act      -- the frame reader's next action between header and body (or, when none is left, it starts to read the body)
+  | body     -- the rest of the frame arrives
+  | expire   -- the deadline in force expires while the reader is blocked: Read fails, the connection is closed
+  deriving DecidableEq, Repr
+
+def FRead.step (mid : List FAct) (s : FRead) : FLabel → Option FRead
+  | .header => if s.phase = 0 then some { s with phase := 1, rest := mid } else none
+  | .act =>
+    if s.phase = 1 then
+      match s.rest with
+      | [] => some { s with phase := 2 }
+      | .clearDl :: t => some { s with rest := t, dl := .none }
+      | .setDl :: t => some { s with rest := t, dl := .short }
+      | .other :: t => some { s with rest := t }
+    else none
+  | .body => if s.phase = 2 then some { s with phase := 3 } else none
+  | .expire => if (s.phase = 0 ∨ s.phase = 2) ∧ s.dl ≠ .none then some { s with phase := 4 } else none
+
+def FRead.run (mid : List FAct) : FRead → List FLabel → Option FRead
+  | s, [] => some s
+  | s, l :: ls => match s.step mid l with
+    | none => none
+    | some s' => FRead.run mid s' ls
+
 end Model.C07R
